@@ -468,17 +468,40 @@ impl Link {
         crate::verif::log("fail", do_rand as u64);
         match (self.state_a_b, self.state_b_a) {
             (State::Healthy, _) | (_, State::Healthy) if do_rand => {
-                self.state_a_b = State::RandPartition;
-                self.state_b_a = State::RandPartition;
+                // Only healthy directions fail. A direction that was explicitly
+                // partitioned (or is held) keeps its state, so a later random
+                // repair cannot silently undo an explicit partition.
+                let a_b = matches!(self.state_a_b, State::Healthy);
+                let b_a = matches!(self.state_b_a, State::Healthy);
+                if a_b {
+                    self.state_a_b = State::RandPartition;
+                }
+                if b_a {
+                    self.state_b_a = State::RandPartition;
+                }
 
-                self.sent.clear();
+                // Drop what is in flight in the directions that just failed.
+                self.sent.retain(|sent| {
+                    let failed = if sent.src.ip() < sent.dst.ip() {
+                        a_b
+                    } else {
+                        b_a
+                    };
+                    !failed
+                });
             }
             (State::RandPartition, _) | (_, State::RandPartition)
                 if self.rand_repair(global_config.message_loss(), rand) =>
             {
                 #[cfg(turmoil_verif)]
                 crate::verif::log("repair", 1);
-                self.release();
+                // Only randomly partitioned directions heal.
+                if matches!(self.state_a_b, State::RandPartition) {
+                    self.state_a_b = State::Healthy;
+                }
+                if matches!(self.state_b_a, State::RandPartition) {
+                    self.state_b_a = State::Healthy;
+                }
             }
             _ => {}
         }
